@@ -27,3 +27,7 @@ check("C15", "harness/c15_derived.cxx", workers=(4, 16), wall=(10, 200),
       title="derived interface operations agree with the primitives they are defined from")
 check("C12", "harness/c12_regions.cxx", workers=(8, 16), wall=(15, 300),
       title="regions form a tree rooted at the global region; owners and positions are right")
+check("C17", "harness/c17_print_determinism.cxx", workers=(8, 16), wall=(20, 400),
+      title="printed text depends only on graph structure and printer options")
+check("C18", "harness/c18_printer.cxx", workers=(8, 16), wall=(60, 900), asan_extra="detect_stack_use_after_return=0",
+      title="printing terminates and leaves the stream and the printer as it found them")
